@@ -423,7 +423,7 @@ def complementary_probe(prog, R, rid="R3.4"):
             # when <container>.find(logical_not(a)) != end()
             probes = []
             for i, st in enumerate(top[:ci + 1]):
-                if st.get("k") != "forr":
+                if st.get("k") not in ("forr", "for", "while"):
                     continue
                 finds = [n for n in walk(st.get("b") or {})
                          if n.get("k") == "mcall" and n.get("n") == "find"
@@ -432,8 +432,14 @@ def complementary_probe(prog, R, rid="R3.4"):
                                  for a in n.get("a", ()) for y in walk(a))]
                 if finds and any(n.get("k") == "return"
                                  for n in walk(st.get("b") or {})):
-                    rng = [x["n"] for x in walk(st.get("r") or {})
-                           if x.get("k") == "ref"]
+                    # range-for: the range expression; iterator loop: the
+                    # container whose begin() initialises the iterator
+                    rsrc = st.get("r") if st.get("k") == "forr" else (
+                        st.get("init") or st.get("i") or st.get("c") or {})
+                    rng = [x["n"] for x in walk(rsrc)
+                           if x.get("k") == "ref" and x.get("d") == "local"
+                           and "set<" in (x.get("t") or "")] or \
+                        [x["n"] for x in walk(rsrc) if x.get("k") == "ref"]
                     tgt = [(n.get("o") or {}).get("n") for n in finds]
                     probes.append((i, st, rng[0] if rng else None, tgt))
             good = [p_ for p_ in probes
